@@ -348,4 +348,42 @@ def canResume (c : Cache) (seq : Nat) (pos : Int) : Bool :=
         decide (max 0 (pos - w) ≥ max 0 (last - w)) &&
           (!c.v.fixResume || decide (countFrom seq r (max 0 (pos - w)) pos 0 c.cells 0 = pos - max 0 (pos - w)))
 
+/-! ### WrapperCache (kvcache/wrapper.go) over several Causal caches -/
+
+/-- the unwind of `WrapperCache.StartForward`: `Remove(seq_k, pos_k, MaxInt32)` for every batch token
+    (errors ignored) -/
+def unwind (c : Cache) (b : List Tok) : Cache :=
+  b.foldl (fun c t => (remove c t.seq t.pos maxInt32).1) c
+
+/-- `WrapperCache.StartForward`: caches in order; when one fails the earlier ones (which accepted the
+    batch) are unwound, the failing one keeps whatever its own StartForward left, later ones are not
+    touched -/
+def wStart : List Cache → List Tok → List Cache × Fwd
+  | [], _ => ([], .ok)
+  | c :: cs, b =>
+    match startForward c b with
+    | (c1, .ok) =>
+      match wStart cs b with
+      | (cs', .ok) => (c1 :: cs', .ok)
+      | (cs', .full) => (unwind c1 b :: cs', .full)
+      | (cs', .panic) => (c1 :: cs', .panic)
+    | (c1, r) => (c1 :: cs, r)
+
+/-- `Put` reaches the cache selected by `SetLayerType`; the driver (like a model) Puts every layer of
+    every type on every pass -/
+def wPut (cs : List Cache) (ids : List Nat) : List Cache := cs.map (fun c => put c ids)
+
+def wCopyPrefix (cs : List Cache) (src dst : Nat) (len : Int) : List Cache :=
+  cs.map (fun c => copyPrefix c src dst len)
+
+/-- `WrapperCache.Remove`: stops at the first cache that fails (later caches are not called) -/
+def wRemove : List Cache → Nat → Int → Int → List Cache × Rm
+  | [], _, _, _ => ([], .ok)
+  | c :: cs, seq, b, e =>
+    match remove c seq b e with
+    | (c1, .ok) => let r := wRemove cs seq b e; (c1 :: r.1, r.2)
+    | (c1, r) => (c1 :: cs, r)
+
+def wCanResume (cs : List Cache) (seq : Nat) (pos : Int) : Bool := cs.all (fun c => canResume c seq pos)
+
 end OllamaVerif.Causal
